@@ -1,10 +1,11 @@
 #!/bin/bash
-# runs every mutant in /tmp/mutout (or the dirs given) against all registered checks; prints a table
+# runs every seeded defect in /verif/seeded (or the dirs given) against all registered checks; prints "<id> FIRED: ..." lines
 cd /verif
-dirs="${*:-$(ls -d /tmp/mutout/C*/m*/)}"
+dirs="${*:-$(ls -d seeded/*/)}"
 for d in $dirs; do
-  id=$(echo $d | sed 's#/tmp/mutout/##;s#/$##')
-  ( printf "%-8s %s\n" "$id" "$(./tools/mutrun.sh $d/patch.diff | tail -1)" ) &
+  id=$(basename $d)
+  [ -f $d/patch.diff ] || continue
+  ( printf "%-10s %s\n" "$id" "$(./tools/mutrun.sh $PWD/$d/patch.diff | tail -1)" ) &
   while [ $(jobs -r | wc -l) -ge 6 ]; do sleep 0.3; done
 done
 wait
